@@ -173,6 +173,21 @@ func vpGenericPost(r *raft, pre vpRec, m *pb.Message) {
 	j := vpU64()
 	vpAssert(vpImplies(vpAnd(j <= pre.committed, pre.view.has(j), post.view.has(j)), vpSlotEq(pre.view.slotAt(j), post.view.slotAt(j))), "N2/committed-prefix-immutable")
 	vpAssert(vpImplies(vpAnd(j <= pre.committed, pre.view.has(j), !post.view.has(j)), vpAnd(post.view.hasSnap, post.view.snapIdx > pre.committed, j <= post.view.snapIdx)), "N2/committed-only-dropped-by-snapshot")
+	// C20-P4 nothing invented: outside proposals, an entry that is new or
+	// different at index j is an entry of the stepped MsgApp, the single empty
+	// entry of a new leader, or the single empty auto-leave entry
+	if m.GetType() != pb.MsgProp {
+		changed := vpAnd(post.view.has(j), vpOr(!pre.view.has(j), !vpSlotEq(pre.view.slotAt(j), post.view.slotAt(j))))
+		fromMsg := false
+		if m.GetType() == pb.MsgApp {
+			for _, e := range m.GetEntries() {
+				fromMsg = vpOr(fromMsg, vpAnd(e.GetIndex() == j, vpSlotEq(vpSlotOf(e), post.view.slotAt(j))))
+			}
+		}
+		ps := post.view.slotAt(j)
+		emptyOwn := vpAnd(j == pre.view.last+1, ps.term == post.term, ps.dlen == 0, post.state == StateLeader, vpOr(ps.typ == 0, ps.typ == 2))
+		vpAssert(vpImplies(changed, vpOr(fromMsg, emptyOwn)), "P4/nothing-invented")
+	}
 	// C03-M3 leader append-only
 	if pre.state == StateLeader && post.state == StateLeader {
 		sameTerm := post.term == pre.term
